@@ -11,6 +11,11 @@ use std::time::Instant;
 
 pub const VERIF_ROOT: &str = "/verif";
 
+/// Root for evidence/, replays/, work/, known-findings.json (overridable for scratch runs).
+pub fn verif_root() -> PathBuf {
+    PathBuf::from(std::env::var("VERIF_ROOT").unwrap_or_else(|_| VERIF_ROOT.to_string()))
+}
+
 #[derive(Clone, Copy, Debug, PartialEq, Eq, Serialize, Deserialize)]
 pub enum Tier {
     Quick,
@@ -257,7 +262,7 @@ impl Report {
 // Worker partial results on disk
 
 fn work_dir() -> PathBuf {
-    let p = Path::new(VERIF_ROOT).join("work");
+    let p = verif_root().join("work");
     let _ = std::fs::create_dir_all(&p);
     p
 }
@@ -551,7 +556,7 @@ pub struct KnownFindings {
 }
 
 pub fn load_known_findings() -> Result<KnownFindings, String> {
-    let p = Path::new(VERIF_ROOT).join("known-findings.json");
+    let p = verif_root().join("known-findings.json");
     match std::fs::read(&p) {
         Ok(b) => serde_json::from_slice(&b).map_err(|e| format!("known-findings.json: {e}")),
         Err(_) => Ok(KnownFindings::default()),
@@ -594,7 +599,7 @@ pub fn finalize(f: Finalize, rep: &mut Report) -> i32 {
             return 2;
         }
     };
-    let replay_dir = Path::new(VERIF_ROOT).join("replays").join(f.prop);
+    let replay_dir = verif_root().join("replays").join(f.prop);
     let _ = std::fs::create_dir_all(&replay_dir);
     let mut unlisted = 0;
     let mut known_seen = vec![];
@@ -671,7 +676,7 @@ pub fn finalize(f: Finalize, rep: &mut Report) -> i32 {
         "wall_s": (wall * 1000.0).round() / 1000.0,
         "violations": unlisted,
     });
-    let evdir = Path::new(VERIF_ROOT).join("evidence");
+    let evdir = verif_root().join("evidence");
     let _ = std::fs::create_dir_all(&evdir);
     let evp = evdir.join(format!("{}.json", f.prop));
     if let Err(e) = std::fs::write(&evp, serde_json::to_vec_pretty(&ev).unwrap()) {
